@@ -169,9 +169,13 @@ class Variant:
 
         def spath(x):
             return esc_path(sp.get(x, x))
-        l = "build " + " ".join(spath(o) for o in s.outs)
-        if s.iouts:
-            l += " | " + " ".join(spath(o) for o in s.iouts)
+        if getattr(s, "outs_all_implicit", False):
+            # `build | a b: rule ...`: a statement all of whose outputs are implicit ($out is empty)
+            l = "build | " + " ".join(spath(o) for o in s.outs + s.iouts)
+        else:
+            l = "build " + " ".join(spath(o) for o in s.outs)
+            if s.iouts:
+                l += " | " + " ".join(spath(o) for o in s.iouts)
         l += ": " + ("phony" if s.phony else self.rule_name(i))
         if s.ex:
             l += " " + " ".join(spath(x) for x in s.ex)
